@@ -174,6 +174,31 @@ def audit_rules_c13(rep, fb):
     rep.check(not between, 'R13.8', 'invoke|user datum vs notice', locstr(store[0]), 'between the store of the invokeid user datum and beforeInvoking there %s' % (
         'is no evaluation that can fail' if not between else 'are %d evaluations that can fail (first: %s): <invoke><param expr="1 +* 1"/> gets no invoking notices but an uninvoking pair when its state is left' % (len(between), locstr(between[0]))))
     stable_restored(rep, fb, 'R13.9')
+    # ---- R13.12 (second audit) the debugger's account of transitions
+    rep.rule('R13.12', 'the debugger reports every taken transition once: Debugger::getQualifiedTransBreakpoints yields a qualified breakpoint for a transition without targets too, and one notification does not become one break per target')
+    fbd = facts.FactBase(['src/uscxml/debug/Debugger.cpp'])
+    gq = fbd.fn('uscxml::Debugger::getQualifiedTransBreakpoints')
+    pushes12 = [n for n in gq.walk() if n['k'] == 'CXXMemberCallExpr' and n.get('callee', {}).get('q', '').split('::')[-1] == 'push_back']
+    rep.minimum('R13.12', len(pushes12), 1, 'push_back of a qualified transition breakpoint')
+    in_loop = [n for n in pushes12 if any(a['k'] in ('CXXForRangeStmt', 'ForStmt', 'WhileStmt') for a in gq.ancestors(n))]
+    outside = [n for n in pushes12 if n not in in_loop]
+    rep.check(bool(outside) or not in_loop, 'R13.12', 'getQualifiedTransBreakpoints|targetless', gq.where(), 'a transition without targets %s' % (
+        'gets a qualified breakpoint of its own' if outside or not in_loop else 'gets NO qualified breakpoint (the only push_back sits in the loop over the targets): it is invisible to stepping and to every transition breakpoint'))
+    rep.check(not in_loop, 'R13.12', 'getQualifiedTransBreakpoints|one per notification', locstr(in_loop[0]) if in_loop else gq.where(), 'a transition with several targets %s' % (
+        'is one qualified breakpoint' if not in_loop else 'becomes one qualified breakpoint PER TARGET, and DebugSession::checkBreakpoints breaks once per entry: target="p1 q1" stops the client twice before and twice after one transition'))
+    # ---- R13.11 (second audit) the engines read "no event" from an event without name
+    rep.rule('R13.11', 'a stable notice only when the internal queue is empty: both engines decide "the internal queue is empty" by the truth value of the dequeued event, which is "has a name" - so an event without name never enters the internal queue (InterpreterImpl::enqueueInternal tests the name), or the engines ask the queue itself')
+    iq = fb.fn('uscxml::InterpreterImpl::enqueueInternal')
+    g11 = cfgm.CFG(iq)
+    enq11 = [n for n in iq.walk() if n.get('callee', {}).get('q', '').endswith('EventQueue::enqueue') and n['id'] in g11.pos]
+    guards11 = [n for n in iq.walk() if n['k'] == 'IfStmt' and any(y['k'] == 'MemberExpr' and y.get('ref', {}).get('name') == 'name' for y in sub(n['c'][0]))]
+    by_bool = all(any(x['k'] in ('IfStmt', 'WhileStmt') and any(y.get('callee', {}).get('q', '').endswith('dequeueInternal') for y in sub(x['c'][0])) for x in fb.fn(e_).walk()) or
+                  any(y.get('callee', {}).get('q', '').split('::')[-1].startswith('operator bool') and 'Event' in y.get('callee', {}).get('q', '') for y in fb.fn(e_).walk())
+                  for e_ in ('uscxml::LargeMicroStep::step', 'uscxml::FastMicroStep::step'))
+    ok11 = bool(guards11) and bool(enq11) or not by_bool
+    rep.check(ok11, 'R13.11', 'enqueueInternal|nameless event', iq.where(), 'an event without name %s' % (
+        'does not enter the internal queue' if guards11 else ('is told apart by the engines' if not by_bool else
+        'can enter the internal queue (<send target="#_internal"><content>..</content></send>): the engines take it for "queue empty", start invocations and announce a stable configuration while further internal events are still queued')))
     rep.rule('R13.10', 'one monitor set per step: the engines (which copy the set at the top of step()) and the content executor (which notifies from inside that step) use the same set')
     be = [f for f in fb.funcs.values() if f.rec == 'uscxml::BasicContentExecutor' and f.d.get('body')]
     live = [n for f in be for n in f.walk() if n.get('callee', {}).get('q', '').endswith('getMonitors')]
